@@ -524,6 +524,22 @@ type peerReactor struct {
 	h    *harness
 	idx  int
 	spec *PeerSpec
+
+	// class "leftover": answers that wait until the ahead blocks have been delivered
+	mu       sync.Mutex
+	held     []func()
+	released bool
+}
+
+// release lets the held answers go (in the order the requests came, lowest heights were asked first).
+func (pr *peerReactor) release() {
+	pr.mu.Lock()
+	held := pr.held
+	pr.held, pr.released = nil, true
+	pr.mu.Unlock()
+	for _, f := range held {
+		f()
+	}
 }
 
 func newPeerReactor(h *harness, idx int) *peerReactor {
@@ -575,6 +591,28 @@ func (pr *peerReactor) ReceiveEnvelope(e p2p.Envelope) {
 		pr.h.log.add("req_received", pr.spec.Name, h, "")
 		atomic.AddInt32(&pr.h.reqs[pr.idx], 1)
 		blk, noBlock, silent := pr.h.w.build(pr.spec, h)
+		if len(pr.spec.Ahead) > 0 && pr.spec.beh(h).Kind == "honest" || (pr.spec.CatchAt != 0 && h == pr.spec.CatchAt) {
+			// not one of the ahead heights: answered only after those have been delivered, and only up
+			// to the height after the forged block that gets this peer caught
+			if pr.spec.LeaveAfterAhead || h > pr.spec.CatchAt+1 {
+				pr.h.log.add("silent", pr.spec.Name, h, "")
+				return
+			}
+			pb, err := blk.ToProto()
+			if err != nil {
+				panic(err)
+			}
+			send := func() { pr.sendLater(fmt.Sprintf("block@%d", h), e.Src, &bcproto.BlockResponse{Block: pb}) }
+			pr.mu.Lock()
+			if !pr.released {
+				pr.held = append(pr.held, send)
+				pr.mu.Unlock()
+				return
+			}
+			pr.mu.Unlock()
+			send()
+			return
+		}
 		switch {
 		case silent:
 			pr.h.log.add("silent", pr.spec.Name, h, "")
